@@ -1,1 +1,776 @@
-fn main() { eprintln!("engine not built yet"); std::process::exit(2); }
+//! cbloom — C26: the write circuit breaker is panic-free and bounds half-open probes.
+//!
+//! The checked code is the repository's own `circuit_breaker.rs`, `#[path]`-included below and compiled
+//! with this crate's `verif-loom` feature, so that its atomics are `loom::sync::atomic` types and its
+//! clock is `clock_tick()` (a loom atomic logical clock: every read advances it by one, i.e. "the clock
+//! advances between operations" and every clock read is a scheduling point of its own).
+//!
+//! Explored: for every scenario (configuration x start state x per-thread operation lists) loom
+//! enumerates every interleaving (up to the stated preemption bound, or all of them) of the threads'
+//! atomic steps; the oracles below are evaluated at the end of every execution.  In addition every
+//! single-threaded operation sequence up to a depth is executed (one schedule each) with exact episode
+//! accounting.
+//!
+//! Oracles (exactly the three clauses of the property):
+//!   O1  no panic (the build has overflow checks on, as the repository's own test profile has);
+//!   O2  from a Closed start, the breaker is only ever observed Open if some linearisation of the
+//!       operations started so far (respecting each thread's program order) contains `failure_threshold`
+//!       consecutive failures (failures recorded before the scenario count);
+//!   O3  in scenarios in which Closed is unreachable, the number of admitted requests is at most
+//!       (half_open_max_calls + 1) per half-open episode that can exist; the "+ 1" is the request that
+//!       performs the Open -> HalfOpen transition, which the sequential code admits by design (the
+//!       repository's own test `test_circuit_breaker_recovery` relies on it).
+
+#[allow(dead_code)]
+#[path = "/repo/crates/sierradb-cluster/src/circuit_breaker.rs"]
+mod circuit_breaker;
+
+use std::collections::{BTreeMap, HashMap};
+use std::sync::Mutex;
+use std::sync::atomic::{AtomicBool, AtomicU64 as StdU64, Ordering as StdOrd};
+use std::time::{Duration, Instant};
+
+use circuit_breaker::{CircuitState, WriteCircuitBreaker};
+use serde_json::{Value, json};
+use vcommon::workers::{self, WorkerOut};
+use vcommon::{Args, Ctx, Tier};
+
+loom::lazy_static! {
+    static ref CLOCK: loom::sync::atomic::AtomicU64 = loom::sync::atomic::AtomicU64::new(CLOCK_START);
+}
+const CLOCK_START: u64 = 10_000;
+const LONG_AGO: u64 = 5_000;
+
+/// The clock of the included file: strictly increasing, one tick per read.
+pub fn clock_tick() -> u64 {
+    CLOCK.fetch_add(1, loom::sync::atomic::Ordering::SeqCst)
+}
+
+// ---------------------------------------------------------------------------------------------
+// scenarios
+
+#[derive(Clone, Copy, Debug, PartialEq, Eq, Hash, PartialOrd, Ord)]
+enum Op {
+    Allow,
+    Succ,
+    Fail,
+    Est,
+}
+
+impl Op {
+    const ALL: [Op; 4] = [Op::Allow, Op::Succ, Op::Fail, Op::Est];
+    fn ch(self) -> char {
+        match self {
+            Op::Allow => 'A',
+            Op::Succ => 'S',
+            Op::Fail => 'F',
+            Op::Est => 'E',
+        }
+    }
+    fn from_ch(c: char) -> Op {
+        match c {
+            'A' => Op::Allow,
+            'S' => Op::Succ,
+            'F' => Op::Fail,
+            'E' => Op::Est,
+            _ => vcommon::machinery_fail("bad op letter in replay"),
+        }
+    }
+}
+
+#[derive(Clone, Copy, Debug, PartialEq, Eq, Hash)]
+enum Start {
+    /// Closed with threshold-1 consecutive failures already recorded
+    ClosedAlmost,
+    /// Closed, no failures
+    ClosedFresh,
+    /// Open, last failure just now
+    OpenNow,
+    /// Open, last failure LONG_AGO ticks ago
+    OpenLongAgo,
+    /// HalfOpen with max_calls-1 counted probes already made (plus the transitioning request)
+    HalfOpenAlmost,
+}
+
+impl Start {
+    const ALL: [Start; 5] = [Start::ClosedAlmost, Start::ClosedFresh, Start::OpenNow, Start::OpenLongAgo, Start::HalfOpenAlmost];
+    fn name(self) -> &'static str {
+        match self {
+            Start::ClosedAlmost => "closed-almost",
+            Start::ClosedFresh => "closed-fresh",
+            Start::OpenNow => "open-now",
+            Start::OpenLongAgo => "open-long-ago",
+            Start::HalfOpenAlmost => "half-open-almost",
+        }
+    }
+    fn from_name(s: &str) -> Start {
+        *Start::ALL.iter().find(|x| x.name() == s).unwrap_or_else(|| vcommon::machinery_fail("bad start name"))
+    }
+    fn is_closed(self) -> bool {
+        matches!(self, Start::ClosedAlmost | Start::ClosedFresh)
+    }
+}
+
+#[derive(Clone, Copy, Debug, PartialEq, Eq, Hash)]
+struct Cfg {
+    threshold: u32,
+    timeout: u64,
+    max_calls: u32,
+    succ_thr: u32,
+}
+
+const CFGS: [Cfg; 3] = [
+    Cfg { threshold: 2, timeout: 1000, max_calls: 1, succ_thr: 1 },
+    Cfg { threshold: 2, timeout: 0, max_calls: 1, succ_thr: 1000 },
+    Cfg { threshold: 2, timeout: 2, max_calls: 2, succ_thr: 2 },
+];
+
+#[derive(Clone, Debug, PartialEq, Eq, Hash)]
+struct Scenario {
+    cfg: Cfg,
+    start: Start,
+    threads: Vec<Vec<Op>>,
+    bound: Option<usize>,
+}
+
+impl Scenario {
+    fn to_json(&self) -> Value {
+        json!({
+            "threshold": self.cfg.threshold, "timeout_ticks": self.cfg.timeout, "half_open_max_calls": self.cfg.max_calls,
+            "half_open_success_threshold": self.cfg.succ_thr, "start": self.start.name(),
+            "threads": self.threads.iter().map(|t| t.iter().map(|o| o.ch()).collect::<String>()).collect::<Vec<_>>(),
+            "preemption_bound": self.bound,
+        })
+    }
+    fn from_json(v: &Value) -> Scenario {
+        let u = |k: &str| v[k].as_u64().unwrap_or_else(|| vcommon::machinery_fail(&format!("replay lacks {k}")));
+        Scenario {
+            cfg: Cfg { threshold: u("threshold") as u32, timeout: u("timeout_ticks"), max_calls: u("half_open_max_calls") as u32, succ_thr: u("half_open_success_threshold") as u32 },
+            start: Start::from_name(v["start"].as_str().unwrap_or("")),
+            threads: v["threads"].as_array().map(|a| a.iter().map(|t| t.as_str().unwrap_or("").chars().map(Op::from_ch).collect()).collect()).unwrap_or_default(),
+            bound: v["preemption_bound"].as_u64().map(|b| b as usize),
+        }
+    }
+    fn shape(&self) -> String {
+        let mut s: Vec<usize> = self.threads.iter().map(|t| t.len()).collect();
+        s.sort();
+        format!("{}t/{}", self.threads.len(), s.iter().map(|x| x.to_string()).collect::<Vec<_>>().join("+"))
+    }
+}
+
+fn op_lists(len: usize) -> Vec<Vec<Op>> {
+    let mut out: Vec<Vec<Op>> = vec![vec![]];
+    for _ in 0..len {
+        let mut n = Vec::new();
+        for p in &out {
+            for o in Op::ALL {
+                let mut q = p.clone();
+                q.push(o);
+                n.push(q);
+            }
+        }
+        out = n;
+    }
+    out
+}
+
+/// All multisets of per-thread op lists with the given lengths (threads are symmetric: only sorted
+/// combinations are kept when lengths are equal).
+fn thread_vectors(lens: &[usize]) -> Vec<Vec<Vec<Op>>> {
+    let mut out: Vec<Vec<Vec<Op>>> = vec![vec![]];
+    for &l in lens {
+        let lists = op_lists(l);
+        let mut n = Vec::new();
+        for p in &out {
+            for li in &lists {
+                if let Some(prev) = p.last() {
+                    if prev.len() == li.len() && prev > li {
+                        continue;
+                    }
+                }
+                let mut q = p.clone();
+                q.push(li.clone());
+                n.push(q);
+            }
+        }
+        out = n;
+    }
+    out
+}
+
+fn scenarios(tier: Tier) -> Vec<Scenario> {
+    // (thread lengths, preemption bound)
+    let shapes: Vec<(Vec<usize>, Option<usize>)> = match tier {
+        Tier::Quick => vec![(vec![1, 1], None), (vec![1, 2], None), (vec![2, 2], Some(3)), (vec![1, 1, 1], Some(3)), (vec![1, 3], Some(2))],
+        Tier::Thorough => vec![
+            (vec![1, 1], None),
+            (vec![1, 2], None),
+            (vec![2, 2], None),
+            (vec![1, 3], Some(4)),
+            (vec![2, 3], Some(3)),
+            (vec![3, 3], Some(2)),
+            (vec![1, 1, 1], None),
+            (vec![1, 1, 2], Some(3)),
+            (vec![1, 2, 2], Some(2)),
+        ],
+    };
+    let mut v = Vec::new();
+    for (lens, bound) in shapes {
+        for threads in thread_vectors(&lens) {
+            for cfg in CFGS {
+                for start in Start::ALL {
+                    v.push(Scenario { cfg, start, threads: threads.clone(), bound });
+                }
+            }
+        }
+    }
+    v
+}
+
+// ---------------------------------------------------------------------------------------------
+// ghost recording (invisible to loom: plain std types, only touched by the one running thread)
+
+#[derive(Clone, Debug)]
+struct Rec {
+    thread: usize,
+    op: Op,
+    start: u64,
+    end: u64,
+    /// Allow: admitted?; Est: Some(..)?; others: true
+    ret: bool,
+    /// Est only: Some(non-zero) was returned (breaker Open and not yet ready)
+    est_waiting: bool,
+}
+
+static GHOST: StdU64 = StdU64::new(0);
+static LOG: Mutex<Vec<Rec>> = Mutex::new(Vec::new());
+static EXECS: StdU64 = StdU64::new(0);
+static OPS: StdU64 = StdU64::new(0);
+static FOUND: Mutex<Option<(String, String, Value)>> = Mutex::new(None);
+static IN_MODEL: AtomicBool = AtomicBool::new(false);
+static OUTCOMES: Mutex<BTreeMap<String, u64>> = Mutex::new(BTreeMap::new());
+
+fn ghost() -> u64 {
+    GHOST.fetch_add(1, StdOrd::Relaxed)
+}
+
+fn run_op(cb: &WriteCircuitBreaker, thread: usize, op: Op) {
+    let start = ghost();
+    let (ret, est_waiting) = match op {
+        Op::Allow => (cb.should_allow_request(), false),
+        Op::Succ => {
+            cb.record_success();
+            (true, false)
+        }
+        Op::Fail => {
+            cb.record_failure();
+            (true, false)
+        }
+        Op::Est => {
+            let r = cb.estimated_recovery_time();
+            (r.is_some(), matches!(r, Some(d) if d > Duration::ZERO))
+        }
+    };
+    let end = ghost();
+    OPS.fetch_add(1, StdOrd::Relaxed);
+    LOG.lock().unwrap().push(Rec { thread, op, start, end, ret, est_waiting });
+}
+
+/// Builds the start state with sequential calls inside the model; returns the number of requests
+/// admitted while doing so (they belong to the half-open episode the scenario starts in).
+fn build(sc: &Scenario) -> (WriteCircuitBreaker, u32) {
+    let c = sc.cfg;
+    let cb = WriteCircuitBreaker::new(c.threshold, Duration::from_millis(c.timeout), c.max_calls, c.succ_thr);
+    let mut admitted = 0;
+    let open = |cb: &WriteCircuitBreaker| {
+        for _ in 0..c.threshold {
+            cb.record_failure();
+        }
+        assert_eq!(cb.current_state(), CircuitState::Open, "harness: start state not Open");
+    };
+    match sc.start {
+        Start::ClosedFresh => {}
+        Start::ClosedAlmost => {
+            for _ in 0..c.threshold - 1 {
+                cb.record_failure();
+            }
+            assert_eq!(cb.current_state(), CircuitState::Closed);
+        }
+        Start::OpenNow => open(&cb),
+        Start::OpenLongAgo => {
+            open(&cb);
+            CLOCK.fetch_add(LONG_AGO, loom::sync::atomic::Ordering::SeqCst);
+        }
+        Start::HalfOpenAlmost => {
+            open(&cb);
+            CLOCK.fetch_add(LONG_AGO, loom::sync::atomic::Ordering::SeqCst);
+            assert!(cb.should_allow_request(), "harness: transition request not admitted");
+            admitted += 1;
+            assert_eq!(cb.current_state(), CircuitState::HalfOpen);
+            for _ in 0..c.max_calls - 1 {
+                assert!(cb.should_allow_request());
+                admitted += 1;
+            }
+        }
+    }
+    (cb, admitted)
+}
+
+fn count(sc: &Scenario, op: Op) -> u32 {
+    sc.threads.iter().flatten().filter(|o| **o == op).count() as u32
+}
+
+/// O2 helper: is there a linearisation (respecting the ghost interval order) of the operations that
+/// started before `t` with `threshold` consecutive failures, `f0` failures preceding everything?
+fn justified(recs: &[Rec], t: u64, f0: u32, threshold: u32) -> bool {
+    let ops: Vec<&Rec> = recs.iter().filter(|r| r.start < t && matches!(r.op, Op::Fail | Op::Succ)).collect();
+    fn go(ops: &[&Rec], used: u32, run: u32, threshold: u32) -> bool {
+        if run >= threshold {
+            return true;
+        }
+        for (i, r) in ops.iter().enumerate() {
+            if used & (1 << i) != 0 {
+                continue;
+            }
+            // r may come next only if no unused op of the same thread precedes it.  Operations of
+            // different threads are never ordered here, even when one returned before the other began:
+            // the harness threads do not synchronise with each other, and under the C11 model (which loom
+            // explores) a Release store may be modification-ordered before a read-modify-write of another
+            // thread that executed earlier, so "earlier in wall time" is not an ordering the code could rely on.
+            if ops.iter().enumerate().any(|(j, q)| j != i && used & (1 << j) == 0 && q.thread == r.thread && q.start < r.start) {
+                continue;
+            }
+            let nrun = if r.op == Op::Fail { run + 1 } else { 0 };
+            if go(ops, used | (1 << i), nrun, threshold) {
+                return true;
+            }
+        }
+        false
+    }
+    go(&ops, 0, f0, threshold)
+}
+
+fn fail(key: String, desc: String, sc: &Scenario, recs: &[Rec]) -> ! {
+    let case = json!({
+        "scenario": sc.to_json(),
+        "execution_index": EXECS.load(StdOrd::Relaxed),
+        "history": recs.iter().map(|r| json!({"thread": r.thread, "op": r.op.ch().to_string(), "start": r.start, "end": r.end, "ret": r.ret})).collect::<Vec<_>>(),
+    });
+    let mut f = FOUND.lock().unwrap();
+    if f.is_none() {
+        *f = Some((key, desc, case));
+    }
+    drop(f);
+    panic!("ORACLE");
+}
+
+fn evaluate(sc: &Scenario, cb: &WriteCircuitBreaker, pre_admitted: u32) {
+    let recs = LOG.lock().unwrap().clone();
+    let final_state = cb.current_state();
+    let c = sc.cfg;
+    // distinct outcomes: return values in thread order + final state
+    let mut byt: Vec<&Rec> = recs.iter().collect();
+    byt.sort_by_key(|r| (r.thread, r.start));
+    let o: String = byt.iter().map(|r| if r.ret { '1' } else { '0' }).collect::<String>() + &format!("{final_state:?}");
+    *OUTCOMES.lock().unwrap().entry(o).or_insert(0) += 1;
+
+    // O2
+    if sc.start.is_closed() {
+        let f0 = if sc.start == Start::ClosedAlmost { c.threshold - 1 } else { 0 };
+        // observations that imply "Open or HalfOpen was current": Allow returning false, Est returning
+        // Some(..); the final state.
+        let mut obs: Vec<(u64, String)> = Vec::new();
+        for r in &recs {
+            match r.op {
+                Op::Allow if !r.ret => obs.push((r.end, format!("should_allow_request returned false (thread {})", r.thread))),
+                Op::Est if r.ret => obs.push((r.end, format!("estimated_recovery_time returned Some (thread {})", r.thread))),
+                _ => {}
+            }
+        }
+        if final_state != CircuitState::Closed {
+            obs.push((u64::MAX, format!("final state {final_state:?}")));
+        }
+        for (t, what) in obs {
+            if !justified(&recs, t, f0, c.threshold) {
+                fail(
+                    format!("C26/opened-without-threshold-failures/start={}", sc.start.name()),
+                    format!("{what}, but no ordering of the operations started by then contains {} consecutive failures ({} recorded before)", c.threshold, f0),
+                    sc,
+                    &recs,
+                );
+            }
+        }
+    }
+
+    // O3
+    let closed_unreachable = !sc.start.is_closed() && count(sc, Op::Succ) < c.succ_thr;
+    if closed_unreachable {
+        let admitted = pre_admitted + recs.iter().filter(|r| r.op == Op::Allow && r.ret).count() as u32;
+        // an episode needs the breaker to be Open first; every re-opening needs a record_failure call,
+        // and with the long timeout no second episode can begin within the scenario's clock range
+        // An episode begins with an Open -> HalfOpen transition, so there are at most as many episodes as
+        // there are times the breaker is Open: once at the start (or, for the half-open start, the episode
+        // in progress) plus once per record_failure call.  No assumption is made about *when* a new
+        // episode may begin (the property does not state one).
+        let episodes = 1 + count(sc, Op::Fail);
+        let bound = (c.max_calls + 1) * episodes;
+        if admitted > bound {
+            let racers = sc.threads.iter().filter(|t| t.contains(&Op::Allow)).count();
+            fail(
+                format!("C26/probe-bound-exceeded/start={}/threads-admitting={}", sc.start.name(), racers.min(3)),
+                format!(
+                    "{admitted} requests admitted, at most {bound} allowed = (half_open_max_calls {} + the transitioning request) x {episodes} possible half-open episode(s)",
+                    c.max_calls
+                ),
+                sc,
+                &recs,
+            );
+        }
+    }
+}
+
+struct ModelResult {
+    execs: u64,
+    capped: bool,
+    violation: Option<(String, String, Value)>,
+}
+
+fn run_model(sc: &Scenario, max: Duration) -> ModelResult {
+    let before = EXECS.load(StdOrd::Relaxed);
+    *FOUND.lock().unwrap() = None;
+    let mut b = loom::model::Builder::new();
+    b.preemption_bound = sc.bound;
+    b.max_duration = Some(max);
+    b.checkpoint_interval = 500;
+    b.max_branches = 5_000;
+    b.log = std::env::var("CBLOOM_LOG").is_ok();
+    b.location = b.log;
+    let sc2 = sc.clone();
+    let t0 = Instant::now();
+    IN_MODEL.store(true, StdOrd::Relaxed);
+    let r = vcommon::catch(move || {
+        b.check(move || {
+            EXECS.fetch_add(1, StdOrd::Relaxed);
+            GHOST.store(0, StdOrd::Relaxed);
+            LOG.lock().unwrap().clear();
+            let (cb, pre) = build(&sc2);
+            let cb = loom::sync::Arc::new(cb);
+            let mut hs = Vec::new();
+            for (ti, ops) in sc2.threads.iter().enumerate().skip(1) {
+                let cb = cb.clone();
+                let ops = ops.clone();
+                hs.push(loom::thread::spawn(move || {
+                    for o in ops {
+                        run_op(&cb, ti, o);
+                    }
+                }));
+            }
+            for o in &sc2.threads[0] {
+                run_op(&cb, 0, *o);
+            }
+            for h in hs {
+                h.join().unwrap();
+            }
+            evaluate(&sc2, &cb, pre);
+        })
+    });
+    IN_MODEL.store(false, StdOrd::Relaxed);
+    let execs = EXECS.load(StdOrd::Relaxed) - before;
+    let capped = t0.elapsed() >= max;
+    let violation = match r {
+        Ok(()) => None,
+        Err(msg) => {
+            let found = FOUND.lock().unwrap().take();
+            Some(found.unwrap_or_else(|| {
+                let recs = LOG.lock().unwrap().clone();
+                let arith = msg.contains("overflow");
+                (
+                    format!("C26/panic/{}/start={}", if arith { "arithmetic-overflow" } else { "other" }, sc.start.name()),
+                    format!("panic in the circuit breaker: {msg}"),
+                    json!({
+                        "scenario": sc.to_json(),
+                        "execution_index": execs,
+                        "completed_ops_before_panic": recs.iter().map(|r| json!({"thread": r.thread, "op": r.op.ch().to_string(), "ret": r.ret})).collect::<Vec<_>>(),
+                        "panic": msg,
+                    }),
+                )
+            }))
+        }
+    };
+    ModelResult { execs, capped, violation }
+}
+
+// ---------------------------------------------------------------------------------------------
+// sequential sweep: every single-threaded op sequence up to a depth, exact episode accounting
+
+/// Runs a batch of single-threaded sequences inside ONE loom execution (one schedule: there is a single
+/// thread), each on a fresh breaker and a reset clock, each inside its own `catch_unwind`.
+fn sequential_batch(cfg: Cfg, start: Start, seqs: Vec<Vec<Op>>, out: &mut WorkerOut) {
+    type Found = Vec<(String, String, Value)>;
+    let found: std::sync::Arc<Mutex<Found>> = Default::default();
+    let f2 = found.clone();
+    let n_ops: u64 = seqs.iter().map(|s| s.len() as u64).sum();
+    let n = seqs.len() as u64;
+    for ops in &seqs {
+        let sc = Scenario { cfg, start, threads: vec![ops.clone()], bound: None };
+        out.state(vcommon::fnv(format!("{:?}", sc.to_json()).as_bytes()));
+    }
+    let r = vcommon::catch(move || {
+        let mut b = loom::model::Builder::new();
+        b.log = false;
+        b.max_branches = 400_000;
+        b.check(move || {
+            for ops in &seqs {
+                let sc = Scenario { cfg, start, threads: vec![ops.clone()], bound: None };
+                let r = vcommon::catch(|| sequential_one(&sc));
+                let mut f = f2.lock().unwrap();
+                match r {
+                    Err(msg) => f.push((
+                        format!("C26/sequential/panic/{}", if msg.contains("overflow") { "arithmetic-overflow" } else { "other" }),
+                        format!("panic in a single-threaded run: {msg}"),
+                        json!({"sequential": true, "scenario": sc.to_json()}),
+                    )),
+                    Ok(Some((k, d))) => f.push((k, d, json!({"sequential": true, "scenario": sc.to_json()}))),
+                    Ok(None) => {}
+                }
+            }
+        })
+    });
+    out.transitions += n_ops;
+    out.evals += n;
+    out.count("sequential_sequences", n);
+    if let Err(msg) = r {
+        vcommon::machinery_fail(&format!("sequential batch failed outside the code under test: {msg}"));
+    }
+    for (k, d, c) in found.lock().unwrap().drain(..) {
+        out.violation(&k, &d, c);
+    }
+}
+
+/// One single-threaded sequence with exact episode accounting (state is observed after every op).
+fn sequential_one(sc: &Scenario) -> Option<(String, String)> {
+    CLOCK.store(CLOCK_START, loom::sync::atomic::Ordering::SeqCst);
+    let mut found = None;
+    let (cb, pre) = build(sc);
+    let c = sc.cfg;
+    let mut state = cb.current_state();
+    let mut in_episode = pre; // admitted in the current (possibly upcoming) episode
+    let mut run: u32 = match sc.start {
+        Start::ClosedAlmost => c.threshold - 1,
+        Start::ClosedFresh => 0,
+        _ => c.threshold,
+    };
+    for (i, o) in sc.threads[0].iter().enumerate() {
+        let before = state;
+        let mut admitted = false;
+        match o {
+            Op::Allow => admitted = cb.should_allow_request(),
+            Op::Succ => cb.record_success(),
+            Op::Fail => cb.record_failure(),
+            Op::Est => {
+                let _ = cb.estimated_recovery_time();
+            }
+        }
+        state = cb.current_state();
+        match o {
+            Op::Fail => run += 1,
+            Op::Succ => run = 0,
+            _ => {}
+        }
+        if before == CircuitState::Closed && state == CircuitState::Open && run < c.threshold && found.is_none() {
+            found = Some((
+                "C26/sequential/opened-without-threshold-failures".into(),
+                format!("step {i}: Closed -> Open after only {run} consecutive failures (threshold {})", c.threshold),
+            ));
+        }
+        if before != CircuitState::HalfOpen && state == CircuitState::HalfOpen {
+            // the request that performed the transition (if it was one) is counted below
+            in_episode = 0;
+        }
+        if admitted && before != CircuitState::Closed {
+            in_episode += 1;
+            if in_episode > c.max_calls + 1 && found.is_none() {
+                found = Some((
+                    "C26/sequential/probe-bound-exceeded".into(),
+                    format!("step {i}: {in_episode} requests admitted in one half-open episode (max_calls {} + the transitioning request)", c.max_calls),
+                ));
+            }
+        }
+    }
+    found
+}
+
+// ---------------------------------------------------------------------------------------------
+
+enum Case {
+    /// all sequences of `depth` ops that begin with `prefix`
+    Seq(Cfg, Start, usize, Vec<Op>),
+    Conc(Scenario),
+}
+
+fn seqs_of(depth: usize, prefix: &[Op]) -> Vec<Vec<Op>> {
+    op_lists(depth - prefix.len()).into_iter().map(|t| prefix.iter().copied().chain(t).collect()).collect()
+}
+
+fn cases(tier: Tier) -> Vec<Case> {
+    let mut v = Vec::new();
+    let depth = if tier.is_thorough() { 7 } else { 5 };
+    // sequential sequences are grouped by their first three ops to keep the number of cases moderate
+    for cfg in CFGS {
+        for start in Start::ALL {
+            for d in 1..=depth as usize {
+                // batches of at most 4^5 sequences
+                let plen = (d as usize).saturating_sub(5);
+                for prefix in op_lists(plen) {
+                    v.push(Case::Seq(cfg, start, d, prefix));
+                }
+            }
+        }
+    }
+    for sc in scenarios(tier) {
+        v.push(Case::Conc(sc));
+    }
+    v
+}
+
+fn describe(c: &Case) -> Value {
+    match c {
+        Case::Seq(cfg, start, d, prefix) => json!({"sequential_batch": true, "depth": d, "scenario": Scenario { cfg: *cfg, start: *start, threads: vec![prefix.clone()], bound: None }.to_json()}),
+        Case::Conc(sc) => json!({"scenario": sc.to_json()}),
+    }
+}
+
+fn per_model_cap(tier: Tier) -> Duration {
+    Duration::from_secs(if tier.is_thorough() { 120 } else { 20 })
+}
+
+fn run_case(c: &Case, tier: Tier, out: &mut WorkerOut) {
+    let t0 = Instant::now();
+    run_case_inner(c, tier, out);
+    if std::env::var("CBLOOM_TIME").is_ok() {
+        eprintln!("{:>8.1} ms  {}", t0.elapsed().as_secs_f64() * 1e3, describe(c));
+    }
+}
+
+fn run_case_inner(c: &Case, tier: Tier, out: &mut WorkerOut) {
+    match c {
+        Case::Seq(cfg, start, d, prefix) => sequential_batch(*cfg, *start, seqs_of(*d, prefix), out),
+        Case::Conc(sc) => {
+            let r = run_model(sc, per_model_cap(tier));
+            out.evals += r.execs;
+            out.count(&format!("schedules[{} bound={}]", sc.shape(), sc.bound.map(|b| b.to_string()).unwrap_or("none".into())), r.execs);
+            out.count(&format!("models[{} bound={}]", sc.shape(), sc.bound.map(|b| b.to_string()).unwrap_or("none".into())), 1);
+            out.state(vcommon::fnv(format!("{:?}", sc.to_json()).as_bytes()));
+            if r.capped {
+                out.count("models_stopped_by_time_cap", 1);
+            }
+            out.sample(json!({"scenario": sc.to_json(), "schedules_explored": r.execs, "distinct_observed_outcomes": OUTCOMES.lock().unwrap().len()}));
+            if let Some((k, d, case)) = r.violation {
+                out.violation(&k, &d, case);
+                // loom's thread-local execution state is not trusted after an unwound model
+                out.retire = true;
+            }
+            let mut oc = OUTCOMES.lock().unwrap();
+            for (k, _) in oc.iter() {
+                out.outcome(format!("{}|{}", sc.shape(), k));
+            }
+            oc.clear();
+        }
+    }
+}
+
+fn main() {
+    vcommon::install_quiet_panic_hook();
+    let args: Args = vcommon::parse_args();
+    if args.property != "C26" {
+        vcommon::machinery_fail("cbloom serves C26 only");
+    }
+    let tier = args.tier;
+    if let Some(path) = &args.replay {
+        replay(path, tier);
+    }
+    let all = cases(tier);
+    let order: Vec<usize> = vcommon::seeded_order(all.len(), vcommon::seed_from_env());
+    if let Some(spec) = workers::worker_spec(&args.extra) {
+        // OPS is global; report it through the transitions counter at the end of every case
+        workers::worker_loop(&spec, &order, |idx, out| {
+            let before = OPS.load(StdOrd::Relaxed);
+            run_case(&all[idx], tier, out);
+            if matches!(all[idx], Case::Conc(_)) {
+                out.transitions += OPS.load(StdOrd::Relaxed) - before;
+            }
+        });
+    }
+    let ctx = Ctx::new("C26", tier, "model_checking");
+    let cap = Duration::from_secs(if tier.is_thorough() { 1500 } else { 50 });
+    let m = workers::parent_run(&ctx, all.len(), &["C26".to_string(), tier.as_str().to_string()], cap, "C26/process-died", |pos| describe(&all[order[pos]]));
+    let n_conc = all.iter().filter(|c| matches!(c, Case::Conc(..))).count();
+    let n_seq = m.counters.get("sequential_sequences").copied().unwrap_or(0);
+    let coverage = json!({
+        "states": m.evals,
+        "transitions": m.transitions,
+        "schedules_explored": m.evals,
+        "evaluations": m.evals,
+        "distinct_nontrivial": m.outcomes.len(),
+        "rule": "every scenario is a distinct (configuration, start state, per-thread operation lists) tuple; evaluations = loom executions + single-threaded sequences; distinct_nontrivial counts distinct (thread shape, per-operation return values, final state) observations, i.e. how many different behaviours the explored schedules actually produced",
+        "samples": m.samples,
+        "traces_validated_against_impl": m.evals,
+        "what_states_are": "complete executions (loom schedules) of the real circuit_breaker.rs; each is checked by the oracles",
+        "cases": {"sequential_sequences": n_seq, "concurrent_scenarios": n_conc, "executed": m.cases_done},
+        "exhaustive": !m.capped && m.counters.get("models_stopped_by_time_cap").copied().unwrap_or(0) == 0,
+        "caps_hit": {"global_wall_cap": m.capped, "models_stopped_by_time_cap": m.counters.get("models_stopped_by_time_cap").copied().unwrap_or(0)},
+        "bounds": {
+            "alphabet": ["should_allow_request", "record_success", "record_failure", "estimated_recovery_time"],
+            "configurations": CFGS.iter().map(|c| json!({"failure_threshold": c.threshold, "recovery_timeout_ticks": c.timeout, "half_open_max_calls": c.max_calls, "half_open_success_threshold": c.succ_thr})).collect::<Vec<_>>(),
+            "start_states": Start::ALL.iter().map(|s| s.name()).collect::<Vec<_>>(),
+            "sequential_depth": if tier.is_thorough() { 7 } else { 5 },
+            "thread_shapes_and_preemption_bounds": m.counters.iter().filter(|(k, _)| k.starts_with("models[")).map(|(k, v)| json!({"shape": k, "models": v})).collect::<Vec<_>>(),
+            "clock": "loom atomic logical clock, one tick per read, every read is a scheduling point",
+            "probe_bound_used": "half_open_max_calls + 1 (the request performing Open->HalfOpen) per possible episode",
+        },
+        "schedules_per_shape": m.counters.iter().filter(|(k, _)| k.starts_with("schedules[")).map(|(k, v)| json!({"shape": k, "schedules": v})).collect::<Vec<_>>(),
+        "distinct_outcomes": m.outcomes.len(),
+        "worker_deaths": m.worker_deaths,
+    });
+    ctx.finish(
+        coverage,
+        vec![
+            "loom models the C11 memory model for the orderings the file uses (Acquire/Release/AcqRel); SeqCst fences are not used by the file".into(),
+            "the clock is logical: millisecond granularity effects are represented by timeouts of 0, 2 and 1000 ticks".into(),
+            "preemption-bounded shapes are exhaustive only up to the stated bound".into(),
+        ],
+    )
+}
+
+fn replay(path: &std::path::Path, tier: Tier) -> ! {
+    let case = vcommon::load_replay(path);
+    let case = if case.get("died").is_some() { case["case"].clone() } else { case };
+    let sc = Scenario::from_json(&case["scenario"]);
+    let mut ctx = Ctx::new("C26", tier, "model_checking");
+    ctx.replay_mode = true;
+    let mut obs = Vec::new();
+    for _ in 0..2 {
+        if case["sequential"].as_bool().unwrap_or(false) {
+            let mut out = WorkerOut { collected: Some(Vec::new()), ..Default::default() };
+            sequential_batch(sc.cfg, sc.start, vec![sc.threads[0].clone()], &mut out);
+            obs.push(out.collected.unwrap().into_iter().next());
+        } else {
+            let r = run_model(&sc, Duration::from_secs(300));
+            println!("replay: {} executions explored{}", r.execs, if r.capped { " (time cap hit)" } else { "" });
+            obs.push(r.violation);
+        }
+    }
+    let keys: Vec<Option<String>> = obs.iter().map(|o| o.as_ref().map(|x| x.0.clone())).collect();
+    if keys[0] != keys[1] {
+        vcommon::machinery_fail(&format!("non-deterministic replay: {keys:?}"));
+    }
+    match obs.into_iter().next().unwrap() {
+        Some((k, d, c)) => {
+            println!("replay: violation reproduced");
+            ctx.violation(&k, &d, c);
+        }
+        None => println!("replay: the recorded scenario passes on the current tree"),
+    }
+    let _: HashMap<(), ()> = HashMap::new();
+    ctx.finish(json!({"replay": path.display().to_string()}), vec![])
+}
